@@ -110,6 +110,19 @@ def run_all(ctx):
                    "eq_struct_built": d == d3 and hash(d) == hash(d3),
                    "from_own_fields": NestedDtype.from_fields(d.fields) == d,
                    "differs_from_element_swapped": d != NestedDtype.from_fields({"p": pa.int64(), "k": pa.int64()})}
+            # an equal Arrow type that only spells the name of an inner list item differently ("element" is what data read
+            # from parquet carries): equal dtypes, so one dict / set key
+            twin = None
+            if pa.types.is_list(t) or pa.types.is_large_list(t):
+                mk = pa.list_ if pa.types.is_list(t) else pa.large_list
+                twin = mk(pa.field("element", t.value_type))
+            elif pa.types.is_struct(t):
+                twin = pa.struct([pa.field("p", pa.int64()), pa.field("q", pa.string())])
+            if twin is not None and twin.equals(t):
+                d4 = NestedDtype.from_fields({"p": twin, "k": pa.int64()})
+                out["equal_type_respelled"] = bool(d == d4) and hash(d) == hash(d4) and len({d, d4}) == 1
+            else:
+                out["equal_type_respelled"] = True
             for nm, f in (("pickle_dtype", lambda: pickle.loads(pickle.dumps(d)) == d),
                           ("deepcopy_dtype", lambda: _copy.deepcopy(d) == d),
                           ("pickle_array", lambda: pickle.loads(pickle.dumps(arr)).dtype == d),
@@ -119,7 +132,7 @@ def run_all(ctx):
                 r = call_real(f)
                 out[nm] = r["ok"] if "ok" in r else f"{r.get('err')}"
             return out
-        keys = ["reports", "eq_struct_built", "from_own_fields", "differs_from_element_swapped", "pickle_dtype", "deepcopy_dtype",
+        keys = ["reports", "eq_struct_built", "from_own_fields", "differs_from_element_swapped", "equal_type_respelled", "pickle_dtype", "deepcopy_dtype",
                 "pickle_array", "deepcopy_array", "pickle_series", "pickle_frame"]
         ctx.case("dtype.identity.parametric", {"type": str(t)}, call_real(ident), None, {"ok": {k2: True for k2 in keys}},
                  features=("parametric",))
